@@ -105,3 +105,21 @@ Theorem C18_bit_equals_and_flags :
       /\ (forall i, 0 <= i <= 15 -> i <> 11 -> R mb i = R m i).
 Proof. exact bit_and_same_nz. Qed.
 Print Assumptions C18_bit_equals_and_flags.
+
+(* PUSHW src ; POPW %rd  =  MOVW src,%rd  (register, condition codes, stack pointer, memory outside the dead word) *)
+From Dmd Require Import Proofs.PushPopMov Proofs.MachKit Proofs.BusProofs.
+Theorem C18_push_pop_equals_mov :
+  forall irp irq irm m v rd,
+    iopcode irp = 160 -> iopcode irq = 32 -> iopcode irm = 132 ->
+    bus_wf (mbus m) -> in_ram_w (R m R_SP) -> R m R_SP + 4 < 4294967296 ->
+    read_op irp 0 m = Ok v m -> read_op irm 0 m = Ok v m -> 0 <= v < 4294967296 ->
+    omode (op0 irq) = MRegister -> oreg (op0 irq) = Some rd -> otype (op0 irq) = DWord ->
+    omode (op1 irm) = MRegister -> oreg (op1 irm) = Some rd -> otype (op1 irm) = DWord ->
+    0 <= rd <= 10 ->
+    exists m1 m2 mm,
+      exec irp m = Ok (ilen irp) m1 /\ exec irq m1 = Ok (ilen irq) m2 /\ exec irm m = Ok (ilen irm) mm
+      /\ (forall i, 0 <= i <= 15 -> i <> 11 -> R m2 i = R mm i)
+      /\ flag F_N m2 = flag F_N mm /\ flag F_Z m2 = flag F_Z mm /\ flag F_C m2 = flag F_C mm /\ flag F_V m2 = flag F_V mm
+      /\ (forall a, RAMB <= a -> (a < R m R_SP \/ R m R_SP + 4 <= a) -> ramb m2 a = ramb mm a).
+Proof. exact push_pop_is_mov. Qed.
+Print Assumptions C18_push_pop_equals_mov.
